@@ -293,7 +293,7 @@ class SolveTScripted(BoundedCheck):
 # C05: solve() against the ordered sequence of single-period solves, with a fault injected at every period in turn
 # ---------------------------------------------------------------------------------------------------------------------
 SPAN6 = 6
-SPAN_KINDS = ('range', 'strings', 'pandas-index', 'period-index')
+SPAN_KINDS = ('range', 'strings', 'pandas-index', 'period-index', 'numpy-with-repeated-label')
 FAULTS = ('none', 'nan', 'exc', 'nonconv')
 
 
@@ -302,6 +302,8 @@ def make_span(kind):
         return list(range(2000, 2000 + SPAN6))
     if kind == 'strings':
         return [f'p{i}' for i in range(SPAN6)]
+    if kind == 'numpy-with-repeated-label':
+        return np.array([2000, 2001, 2002, 2003, 2004, 2002])          # 2002 has two positions: it names no single period
     import pandas as pd
     if kind == 'pandas-index':
         return pd.Index(list(range(2000, 2000 + SPAN6)))
